@@ -49,6 +49,7 @@
 #include "upipe-ts/upipe_ts_check.h"
 #include "upipe-ts/upipe_ts_sync.h"
 #include "upipe-ts/upipe_ts_align.h"
+#include "upipe-modules/upipe_dejitter.h"
 #include "upipe-ts/upipe_ts_decaps.h"
 #include "upipe-ts/upipe_ts_pes_decaps.h"
 #include "upipe-ts/upipe_ts_psi_merge.h"
@@ -1744,12 +1745,15 @@ static void subpipe_case(struct vh_rng *r)
     lab_nev = 0; lab_log_overflow = false; lab_inputs_reset(); in_reset(); pooltrack_reset(); lab_nprobes = 0; lab_probe_hook = NULL;
     src_pump = NULL;
     lab_env_init(vh_chance(R, 1, 2) ? 0 : 1 + vh_below(R, 3));
-    bool join = vh_chance(R, 1, 2);
-    const char *name = join ? "ts_psi_join" : "ts_psi_split";
+    /* 0 section splitter, 1 section joiner, 2 dejitter: a one-to-one super-pipe
+     * whose sub-pipes are one-to-one pipes of their own */
+    int kind = vh_below(R, 3);
+    bool join = kind == 1, dej = kind == 2;
+    const char *name = dej ? "dejitter" : join ? "ts_psi_join" : "ts_psi_split";
     vh_count_dyn("pipe.%s", name);
     struct upipe *sinks[4]; int sink_ids[4]; bool sink_accept[4]; int sink_user[4];   /* -1 free, 100 super, k sub */
     for (int k = 0; k < 4; k++) { char nm[16]; snprintf(nm, sizeof(nm), "sink%d", k); sinks[k] = lab_sink_new(nm, &sink_ids[k]); sink_accept[k] = true; sink_user[k] = -1; }
-    struct upipe_mgr *mgr = join ? upipe_ts_psi_join_mgr_alloc() : upipe_ts_psi_split_mgr_alloc();
+    struct upipe_mgr *mgr = dej ? upipe_dejitter_mgr_alloc() : join ? upipe_ts_psi_join_mgr_alloc() : upipe_ts_psi_split_mgr_alloc();
     int super_id;
     struct upipe *super;
     struct uref *fd = make_flow_def("block.mpegtspsi.", 1);
@@ -1758,7 +1762,7 @@ static void subpipe_case(struct vh_rng *r)
     upipe_mgr_release(mgr);
     if (!super) vh_violation("c04:alloc-failed", "allocation of %s failed", name);
     bool super_flow = join;
-    if (!join && vh_chance(R, 4, 5)) { OP("super.set_flow_def"); if (!ubase_check(upipe_set_flow_def(super, fd))) vh_violation("c04:ts_psi_split:rejected-own-flow-def", "rejected"); super_flow = true; }
+    if (!join && vh_chance(R, 4, 5)) { OP("super.set_flow_def"); if (!ubase_check(upipe_set_flow_def(super, fd))) { char k2[96]; snprintf(k2, sizeof(k2), "c04:%s:rejected-own-flow-def", name); vh_violation(k2, "rejected"); } super_flow = true; }
     uref_free(fd);
     struct upipe *subs[SP_MAXSUB] = { NULL }; int sub_ids[SP_MAXSUB]; bool sub_flow[SP_MAXSUB] = { false };
     uint8_t filt[SP_MAXSUB][4], mask[SP_MAXSUB][4]; int fsize[SP_MAXSUB] = { 0 }; int sub_out[SP_MAXSUB];
@@ -1771,9 +1775,9 @@ static void subpipe_case(struct vh_rng *r)
         if (c < 18) {                                           /* allocate a sub-pipe */
             int k = vh_below(R, SP_MAXSUB);
             if (subs[k] || !super) continue;
-            if (join) {
+            if (join || dej) {
                 OP("sub%d=void_alloc_sub", k);
-                subs[k] = upipe_void_alloc_sub(super, lab_probe_new("psi_join_sub", &sub_ids[k]));
+                subs[k] = upipe_void_alloc_sub(super, lab_probe_new(dej ? "dejitter_sub" : "psi_join_sub", &sub_ids[k]));
             } else {
                 struct uref *sfd = make_flow_def("block.mpegtspsi.", 2 + k);
                 fsize[k] = 1 + vh_below(R, 4);
@@ -1789,7 +1793,7 @@ static void subpipe_case(struct vh_rng *r)
             VH_COUNT("op.sub_alloc");
         } else if (c < 30) {                                    /* plumbing */
             int idx = vh_chance(R, 1, 6) ? -1 : (int)vh_below(R, 4);
-            if (join) {
+            if (join || (dej && vh_chance(R, 1, 3))) {
                 if (!super) continue;
                 if (idx >= 0 && sink_user[idx] != -1 && sink_user[idx] != 100) continue;
                 OP("super.set_output(%d)", idx);
@@ -1808,10 +1812,10 @@ static void subpipe_case(struct vh_rng *r)
                 sub_out[k] = idx; if (idx >= 0) sink_user[idx] = k;
             }
             VH_COUNT("op.set_output");
-        } else if (c < 38 && join) {                            /* flow definition of an input of the joiner */
+        } else if (c < 38 && (join || dej)) {                   /* flow definition of an input of the joiner / of a dejitter sub-pipe */
             int k = vh_below(R, SP_MAXSUB);
             if (!subs[k]) continue;
-            bool bad = vh_chance(R, 1, 6);
+            bool bad = !dej && vh_chance(R, 1, 6);
             struct uref *sfd = make_flow_def(bad ? "pic." : "block.mpegtspsi.", 1 + vh_below(R, 3));
             OP("sub%d.set_flow_def(%s)", k, bad ? "pic." : "psi");
             int err = upipe_set_flow_def(subs[k], sfd);
@@ -1831,7 +1835,14 @@ static void subpipe_case(struct vh_rng *r)
             uref_block_unmap(u, 0);
             uref_attr_set_unsigned(u, seq, UDICT_TYPE_UNSIGNED, "x.seq");
             struct upipe *target = NULL;
+            int tk = -1;      /* dejitter: which one-to-one path is taken (SP_MAXSUB = the super-pipe itself) */
             if (join) { int k = vh_below(R, SP_MAXSUB); if (subs[k] && sub_flow[k]) target = subs[k]; }
+            else if (dej) {
+                tk = vh_below(R, SP_MAXSUB + 1);
+                if (tk == SP_MAXSUB) { if (super && super_flow) target = super; }
+                else if (subs[tk] && sub_flow[tk]) target = subs[tk];
+                if (vh_chance(R, 1, 2)) uref_clock_set_dts_prog(u, 27000000 + seq * 1080000);
+            }
             else if (super && super_flow) target = super;
             if (!target) { uref_free(u); continue; }
             OP("input(seq %" PRIu64 ",%zu)", seq, n);
@@ -1841,6 +1852,7 @@ static void subpipe_case(struct vh_rng *r)
             /* routing / exactly-once oracle */
             int want[8] = { 0 };
             if (join) { if (super_out >= 0 && sink_accept[super_out]) want[sink_ids[super_out] & 7] = 1; }
+            else if (dej) { int o = tk == SP_MAXSUB ? super_out : sub_out[tk]; if (o >= 0 && sink_accept[o]) want[sink_ids[o] & 7] = 1; }
             else for (int k = 0; k < SP_MAXSUB; k++) {
                 if (!subs[k] || sub_out[k] < 0 || !sink_accept[sub_out[k]]) continue;
                 bool m = (size_t)fsize[k] <= n;
@@ -1848,7 +1860,7 @@ static void subpipe_case(struct vh_rng *r)
                 if (m) want[sink_ids[sub_out[k]] & 7] = 1;
             }
             int got[8] = { 0 };
-            for (int q = first_new; q < lab_ninputs; q++) if (lab_inputs[q].sink >= 0 && lab_inputs[q].sink < 8) { got[lab_inputs[q].sink]++; if (lab_inputs[q].seq != seq) vh_violation_noabort(join ? "c05:ts_psi_join:wrong-buffer" : "c05:ts_psi_split:wrong-buffer", "a sink received seq %" PRIu64 " while %" PRIu64 " was sent", lab_inputs[q].seq, seq); }
+            for (int q = first_new; q < lab_ninputs; q++) if (lab_inputs[q].sink >= 0 && lab_inputs[q].sink < 8) { got[lab_inputs[q].sink]++; if (lab_inputs[q].seq != seq) vh_violation_noabort(dej ? "c05:dejitter:wrong-buffer" : join ? "c05:ts_psi_join:wrong-buffer" : "c05:ts_psi_split:wrong-buffer", "a sink received seq %" PRIu64 " while %" PRIu64 " was sent", lab_inputs[q].seq, seq); }
             for (int q = 0; q < 8; q++) if (got[q] != want[q]) { char key[96]; snprintf(key, sizeof(key), "c05:%s:%s", name, got[q] < want[q] ? "buffer-lost" : "buffer-duplicated-or-misrouted");
                 vh_violation_noabort(key, "section seq %" PRIu64 " (%zu octets, table 0x%02x) delivered %d times to sink %d, expected %d", seq, n, head[0], got[q], q, want[q]); }
             (void)expected;
